@@ -261,6 +261,15 @@ pub mod spec {
         if (a >= 0) == (b > 0) || a % b == 0 { a / b } else { a / b + (if b > 0 { 1int } else { -1int }) }
     }
     pub open spec fn trunc_rem(a: int, b: int) -> int { a - b * trunc_div(a, b) }
+    /// element-wise combination of `top`, shifted by `offset`, into `second` (README: "on the overlapping parts"):
+    /// position j of the result is op(second[j], top[j - offset]) where the shifted top vector covers j, else second[j]
+    pub open spec fn overlay<T>(second: Seq<T>, top: Seq<T>, offset: int, op: spec_fn(T, T) -> T) -> Seq<T> {
+        Seq::new(second.len(), |j: int| if 0 <= j - offset < top.len() { op(second[j], top[j - offset]) } else { second[j] })
+    }
+    /// the same after only the first `done` elements of `top` have been combined (loop invariant form)
+    pub open spec fn overlay_upto<T>(second: Seq<T>, top: Seq<T>, offset: int, op: spec_fn(T, T) -> T, done: int) -> Seq<T> {
+        Seq::new(second.len(), |j: int| if 0 <= j - offset < done && j - offset < top.len() { op(second[j], top[j - offset]) } else { second[j] })
+    }
     pub open spec fn in_i32(x: int) -> bool { i32::MIN <= x <= i32::MAX }
     /// two's complement wrap-around of a mathematical integer into i32
     pub open spec fn wrap32(x: int) -> i32 {
